@@ -23,7 +23,10 @@ import (
 	tmproto "github.com/tendermint/tendermint/proto/tendermint/types"
 	dbm "github.com/tendermint/tm-db"
 
+	didkey "github.com/SaoNetwork/sao-did/key"
+	didtypes "github.com/SaoNetwork/sao/x/did/types"
 	nodetypes "github.com/SaoNetwork/sao/x/node/types"
+	saotypes "github.com/SaoNetwork/sao/x/sao/types"
 )
 
 const replayChainID = "sao-replay"
@@ -123,3 +126,51 @@ func replayPanics(f func()) (msg interface{}) {
 	f()
 	return nil
 }
+
+// replayDid returns the did:key DID of the secp256k1 key derived from secret.
+func replayDid(t *testing.T, secret string) string {
+	p, err := didkey.NewSecp256k1Provider([]byte(secret))
+	if err != nil {
+		t.Fatal(err)
+	}
+	jws, err := p.CreateJWS([]byte("x"))
+	if err != nil {
+		t.Fatal(err)
+	}
+	kid, err := jws.Signatures[0].GetKid()
+	if err != nil {
+		t.Fatal(err)
+	}
+	for i := 0; i < len(kid); i++ {
+		if kid[i] == '#' {
+			return kid[:i]
+		}
+	}
+	return kid
+}
+
+// signProposal signs the protobuf bytes of p (exactly what verifySignature checks) with the did:key of secret.
+func signProposal(t *testing.T, secret string, p interface{ Marshal() ([]byte, error) }) saotypes.JwsSignature {
+	prov, err := didkey.NewSecp256k1Provider([]byte(secret))
+	if err != nil {
+		t.Fatal(err)
+	}
+	bz, err := p.Marshal()
+	if err != nil {
+		t.Fatal(err)
+	}
+	jws, err := prov.CreateJWS(bz)
+	if err != nil {
+		t.Fatal(err)
+	}
+	return saotypes.JwsSignature{Protected: jws.Signatures[0].Protected, Signature: jws.Signatures[0].Signature}
+}
+
+// bindAccount makes account a bound to did (Did table) and the payment address of did.
+func (e *replayEnv) bindAccount(a sdk.AccAddress, did string) {
+	accountId := "cosmos:" + replayChainID + ":" + a.String()
+	e.App.DidKeeper.SetDid(e.Ctx, didtypes.Did{AccountId: accountId, Did: did})
+	e.App.DidKeeper.SetPaymentAddress(e.Ctx, didtypes.PaymentAddress{Did: did, Address: a.String()})
+}
+
+const replayCid = "QmYwAPJzv5CZsnA625s3Xf2nemtYgPpHdWEz79ojWnPbdG"
